@@ -105,7 +105,8 @@ PROPS = {
         tie_filter=r'promise(Select_|Insert|Update)|callbackInsert|shape|wiring|uniques',
         harness=[sysdiff('sysdiff-linearizable', None, (25, 120), (600, 150), 'C02,C01,C03,C07', ['-routed', '40', '-fail', '15', '-crash', '1', '-known', 'F5'], (200, 150)),
                  sysdiff('sysdiff-linearizable-focus', ['ReadPromise', 'CreatePromise', 'CreatePromiseAndTask', 'CompletePromise', 'CreateCallback', 'CreateSubscription', 'ClaimTask', 'CompleteTask', 'AcquireLock', 'ReleaseLock'],
-                         (20, 100), (500, 120), 'C02,C01', ['-focus', '-smallcfg', '-fail', '10', '-crash', '1', '-known', 'F5'], (200, 120))],
+                         (20, 100), (500, 120), 'C02,C01', ['-focus', '-smallcfg', '-fail', '10', '-crash', '1', '-known', 'F5'], (200, 120)),
+                 dict(bin='stackrun', name='stackrun', quick=['-rounds', '40'], thorough=['-rounds', '800'], search=['-rounds', '250'])],
         rule=SYS_RULE + '; the linearizability checker runs inside the model driver on the history of the run: database snapshots after EVERY transaction (also inside a batch), the tick times, the router answer of each request; '
              'for every response (platform errors excepted) it searches the request\'s window — snapshots from its submission to its response x ticks in the window — for an instant at which the SEQUENTIAL specification '
              '(C02.seqRun: the same coroutine served alone, Lean) gives exactly this response (for ClaimTask: status, task and links at that instant, each attached promise a state it had inside the window); a response '
